@@ -8,7 +8,7 @@ Logging goes through the library's systemLog and the caller-supplied logFn.
 
 import copy
 
-from ..common import HarnessError, canon, load_impl
+from ..common import HarnessError, canon, load_impl, same_result
 from ..engine.tape import Tape
 from ..ref import bigstep
 from ..ref import values as rv
@@ -109,7 +109,7 @@ class Program:
 
 def diff_obs(x, y):
     """First difference between two observations (implementation x, reference y), or None."""
-    if x['result'] != y['result']:
+    if not same_result(x['result'], y['result']):
         return 'result'
     if x['result'] == ('horizon',):
         # both ran into their (differently counted) horizons: only the common part is comparable
